@@ -146,6 +146,7 @@ def check_case(case, res: Result):
         last_ev = rig.k
         seen = len(R.TRACE)
         stale_tag = None          # Block tag value left over by the end of the previous run
+        prev_tag = None           # Block tag at the end of the previous tick
         boundaries = 0
         max_ticks = 170
         min_ticks = max([c["tick"] for c in case.get("ctl", ())] + [0]) + 25
@@ -179,10 +180,12 @@ def check_case(case, res: Result):
             if boundary:
                 # the run ended in this tick (Stop / Restart re-parse the method): a non-empty tag is a leftover now
                 stale_tag = tag if tag not in (None, "") else None
-                if stale_tag is not None:
+                if prev_tag not in (None, ""):
+                    # a block was active (named by the tag) at the end of the tick before the run ended
                     res.count("run_boundaries_with_active_block")
             elif stale_tag is not None and tag != stale_tag:
                 stale_tag = None
+            prev_tag = tag
             reg_in_ended = []
             for b in blocks:
                 if b.block_ended:
